@@ -1,14 +1,20 @@
 #!/usr/bin/env bash
-# tools/seedrun.sh <patch.diff> <PROPERTY-ID>... : apply a seeded change to /repo, run the quick checks of the
-# given properties, undo the change straight afterwards. Prints which checks raised a VIOLATION.
+# tools/seedrun.sh <patch.diff> <PROPERTY-ID>... : apply a seeded change to a scratch worktree of /repo's HEAD
+# (outside /repo and /verif), run the quick checks of the given properties against that tree (VERIF_REPO), and
+# reset the worktree. /repo itself and the committed evidence are not touched; output goes to target/alt-out.
+# (Equivalent to `git -C /repo apply <patch>; ./check ...; git -C /repo checkout -- .`, which is what it did
+# before the tree under test became configurable.)
 set -u
 P=$(readlink -f "$1"); shift
+WT=/tmp/wt/mut
 cd /verif
-if [ -n "$(git -C /repo status --porcelain)" ]; then echo "/repo is not clean"; exit 2; fi
-git -C /repo apply "$P" || { echo "patch does not apply to /repo"; exit 2; }
-trap 'git -C /repo checkout -- . ' EXIT
+if [ ! -d "$WT" ]; then git -C /repo worktree add -q "$WT" HEAD || exit 2; fi
+git -C "$WT" checkout -q --detach "$(git -C /repo rev-parse HEAD)" 2>/dev/null
+git -C "$WT" checkout -q -- . ; git -C "$WT" clean -fdq -e target
+git -C "$WT" apply "$P" || { echo "patch does not apply"; exit 2; }
+trap 'git -C "$WT" checkout -q -- .' EXIT
 for id in "$@"; do
-  out=$(./check "$id" "${TIER:-quick}" 2>&1); rc=$?
+  out=$(VERIF_REPO="$WT" ./check "$id" "${TIER:-quick}" 2>&1); rc=$?
   n=$(echo "$out" | grep -c "^VIOLATION")
   echo "[$id] rc=$rc violations=$n $(echo "$out" | grep -E '^graphsim: [0-9]' | tail -1 | sed 's/graphsim: //')"
   echo "$out" | grep -A2 "^VIOLATION" | grep -E "oracle=|^  [a-zA-Z]" | head -4 | cut -c1-260
